@@ -143,6 +143,7 @@ void chk_run_case(uint64_t seed, long c, bool is_sweep)
         (void)dummy;
         arr[0].name = xstr("+AUTO"); { struct cat_variable *v = w_vars(&arr[0], 2); v[0].type = CAT_VAR_UINT_DEC; v[0].name = "X"; uint8_t *d = w_vdata(&v[0], 1); *d = 9; v[0].read = hv_read; v[1].type = chance(50) ? CAT_VAR_UINT_DEC : CAT_VAR_BUF_HEX; uint8_t *e = w_vdata(&v[1], v[1].type == CAT_VAR_BUF_HEX ? 3 : 1); e[0] = 4; }
         arr[1].name = xstr("+H"); arr[1].read = h_read; arr[1].test = h_test; { struct cat_variable *v = w_vars(&arr[1], 1); v->type = CAT_VAR_UINT_DEC; uint8_t *d = w_vdata(v, 2); d[0] = 1; v->read = hv_read; }
+        if (chance(50)) { arr[2].description = xstr("a description that is far too long for any event buffer used here, whatever comes before it"); CNT("tables_whose_failing_command_has_an_overlong_description"); }      /* its TEST event fails after "+FAIL=" has been composed */
         arr[2].name = xstr("+FAIL");                                                      /* READ fails at once, TEST prints "+FAIL=" */
         arr[3].name = xstr("+LONGNAMETHATDOESNOTFITINTHEEVENTBUFFERATALL0123456789"); arr[3].read = h_read;   /* never fits */
         arr[4].name = xstr("+H2"); arr[4].read = h_read; arr[4].test = h_test; arr[4].only_test = chance(50);      /* test-only restricts the request forms of command lines; an event of either type is processed like any other */
